@@ -193,8 +193,12 @@ def parseOp (toks : List String) : Option Op :=
     | some (ty, "I" :: r2) =>
       match parseJT (r2.length + 1) r2 with
       | some (j, []) =>
-        some { cfg := { fromString := kvNat cfgToks "fs" = 1, fromArray := kvNat cfgToks "fa" = 1,
-                        canonical := kvStr cfgToks "key" = "header" }, ty := ty, input := j }
+        -- fs: 0 = no option, 1 = WithStringValues + WithOpaqueKeys (rest/httpx form / path), 2 = WithStringValues,
+        -- 3 = WithOpaqueKeys; key=header: WithStringValues + WithCanonicalKeyFunc (never opaque)
+        let fs := kvNat cfgToks "fs"
+        let hdr := kvStr cfgToks "key" = "header"
+        some { cfg := { fromString := fs = 1 || fs = 2, fromArray := kvNat cfgToks "fa" = 1,
+                        canonical := hdr, opaqueKeys := (fs = 1 || fs = 3) && !hdr }, ty := ty, input := j }
       | _ => none
     | _ => none
   | _ => none
@@ -237,6 +241,36 @@ def fieldsFeatures : Fields → List String
     ++ tyFeatures t ++ fieldsFeatures rest
 end
 
+/-- keys with dots: which way the lookup went (generator quality counters) -/
+def dottedFeatures (c : Cfg) (key : Str) (m : Obj) : List String :=
+  if !key.contains '.' then []
+  else if c.opaqueKeys then
+    ["key-dotted-opaque", if hasKey key m then "key-dotted-opaque-literal-found" else
+      (match dottedLookup false (fieldsDot key) m with
+       | .ok (some _) => "key-dotted-opaque-absent-but-nested-path-exists"
+       | _ => "key-dotted-opaque-absent")]
+  else
+    ["key-dotted-chained", s!"key-dotted-segments-{(fieldsDot key).length}"] ++
+    (if (fieldsDot key).length < (splitOnChar '.' key).length then ["key-dotted-empty-segment"] else []) ++
+    (if hasKey key m then ["key-dotted-chained-literal-binding-ignored"] else []) ++
+    (match lookupKey c key m with
+     | .ok (some _) =>
+       -- found in the innermost object, or inherited from an enclosing one
+       (match (fieldsDot key).getLast?, (fieldsDot key).head? with
+        | some lastk, some k0 =>
+          (match getKey k0 m with
+           | some (.obj _) => if hasKey lastk m && (fieldsDot key).length > 1 then ["key-dotted-chained-found(enclosing-binds-the-last-segment-too)"] else ["key-dotted-chained-found"]
+           | _ => ["key-dotted-chained-found"])
+        | _, _ => ["key-dotted-chained-found"])
+     | .ok none =>
+       (match (fieldsDot key).head? with
+        | some k0 => (match getKey k0 m with
+                      | some (.obj _) => ["key-dotted-chained-absent(path-ends-inside)"]
+                      | some _ => ["key-dotted-chained-absent(first-segment-not-an-object)"]
+                      | none => ["key-dotted-chained-absent(first-segment-absent)"])
+        | none => ["key-dotted-chained-absent(no-segments)"])
+     | .error _ => ["key-dotted-chained-outside(unknown-ancestors-or-merge)"])
+
 /-- interesting states of the top-level fields of one input (generator quality counters) -/
 def inputFeatures (c : Cfg) : Fields → Obj → List String
   | .nil, _ => []
@@ -246,7 +280,8 @@ def inputFeatures (c : Cfg) : Fields → Obj → List String
      | some tv =>
        match parseTagC c name tv with
        | .ok (key, some o) =>
-         match getKey key m with
+         dottedFeatures c key m ++
+         match (match lookupKey c key m with | .ok x => x | .error _ => none) with
          | none =>
            (if !o.default.isEmpty then ["in-default-filled"] else [])
            ++ (if Spec.declOptional o m then ["in-absent-optional"] else [])
@@ -272,7 +307,7 @@ def inputFeatures (c : Cfg) : Fields → Obj → List String
                  [if Spec.optionsOK o (derefKind t) (fromArrayValue c t.isSlice j) then "in-options-member" else "in-options-nonmember"]
                else [])
            ++ (if o.optional && !o.optionalDep.isEmpty then ["in-dep-supplied"] else [])
-       | .ok (key, none) => if (getKey key m).isNone then ["in-absent-required"] else []
+       | .ok (key, none) => dottedFeatures c key m ++ (if (getKey key m).isNone then ["in-absent-required"] else [])
        | .error _ => [])
     ++ inputFeatures c rest m
 
@@ -416,7 +451,7 @@ def runFrontEnd (r : Report) (sec : Nat) (l : Line) (mode : String) (conf yaml :
     -- core/conf: the JSON unmarshaler with WithCanonicalKeyFunc(strings.ToLower); the handed-on document has lowered keys
     -- uy / ut: `fa=1` selects the Reader form of the front end, not WithFromArray
     let reader := !conf && op0.cfg.fromArray
-    let op : Op := if conf then { op0 with cfg := { lower := true } } else { op0 with cfg := { op0.cfg with fromArray := false } }
+    let op : Op := if conf then { op0 with cfg := { lower := true } } else { op0 with cfg := { op0.cfg with fromArray := false, opaqueKeys := false } }
     let mode := if reader then mode ++ "(Reader)" else mode
     let keyEq : Str → Str → Bool := if conf then (fun a b => lower a == lower b) else (· == ·)
     match l.obs with
